@@ -20,6 +20,11 @@ type ChildResult struct {
 	Dur    time.Duration // wall time of the case
 }
 
+// ChildInfo is returned by a handler (as an error) to report a successful case with a detail text.
+type ChildInfo string
+
+func (c ChildInfo) Error() string { return string(c) }
+
 // ChildHandlers are the functions a child process can run; registered by the check packages.
 var ChildHandlers = map[string]func(json.RawMessage) error{}
 
@@ -45,11 +50,15 @@ func ChildMain(kind string) {
 			func() {
 				defer func() {
 					if r := recover(); r != nil {
-						status, detail = "panic", fmt.Sprint(r)
+						status, detail = "panic", fmt.Sprint(r)+" @ "+panicSite()
 					}
 				}()
 				if e := h(json.RawMessage(line)); e != nil {
-					status, detail = "err", e.Error()
+					if info, ok := e.(ChildInfo); ok {
+						detail = string(info)
+					} else {
+						status, detail = "err", e.Error()
+					}
 				}
 			}()
 			d := time.Since(t0)
@@ -179,4 +188,73 @@ func RunChildCases(kind string, cases []json.RawMessage, perCase time.Duration, 
 		}
 	}
 	return res, nil
+}
+
+// RunChildCasesParallel shards the cases over several guarded child processes.
+func RunChildCasesParallel(kind string, cases []json.RawMessage, perCase time.Duration, memKiB int, shards int) ([]ChildResult, error) {
+	if shards < 1 {
+		shards = 1
+	}
+	if shards > len(cases) {
+		shards = len(cases)
+	}
+	if shards <= 1 {
+		return RunChildCases(kind, cases, perCase, memKiB)
+	}
+	res := make([]ChildResult, len(cases))
+	errs := make([]error, shards)
+	done := make(chan int, shards)
+	per := (len(cases) + shards - 1) / shards
+	n := 0
+	for s := 0; s < shards; s++ {
+		lo, hi := s*per, (s+1)*per
+		if hi > len(cases) {
+			hi = len(cases)
+		}
+		if lo >= hi {
+			break
+		}
+		n++
+		go func(s, lo, hi int) {
+			r, err := RunChildCases(kind, cases[lo:hi], perCase, memKiB)
+			errs[s] = err
+			copy(res[lo:hi], r)
+			done <- s
+		}(s, lo, hi)
+	}
+	for i := 0; i < n; i++ {
+		<-done
+	}
+	for _, e := range errs {
+		if e != nil {
+			return nil, e
+		}
+	}
+	return res, nil
+}
+
+// panicSite names the innermost non-runtime frames of the panicking goroutine (called from the
+// deferred recover, so the panicking frames are still on the stack).
+func panicSite() string {
+	pcs := make([]uintptr, 40)
+	n := runtime.Callers(3, pcs)
+	frames := runtime.CallersFrames(pcs[:n])
+	var out []string
+	for {
+		f, more := frames.Next()
+		if !strings.HasPrefix(f.Function, "runtime.") && f.Function != "" {
+			fn := f.Function
+			if i := strings.LastIndex(fn, "/"); i >= 0 {
+				fn = fn[i+1:]
+			}
+			out = append(out, fmt.Sprintf("%s:%d", fn, f.Line))
+			if len(out) == 4 {
+				break
+			}
+		}
+		if !more {
+			break
+		}
+	}
+	return strings.Join(out, " < ")
 }
